@@ -65,15 +65,25 @@ def lean_check(pid, tier):
         errs = [l for l in r.stdout.splitlines() if 'error' in l][:8]
         res['failures'].append('lake build failed: ' + ' | '.join(errs))
         return res
-    # forbidden tokens in every source file of the project (comments stripped)
-    for dp, dn, fn in os.walk(os.path.join(LEAN, 'WebPkg')):
-        for f in fn:
-            if f.endswith('.lean'):
-                src = strip_comments(open(os.path.join(dp, f)).read())
-                for ln in src.splitlines():
-                    if FORBIDDEN.search(ln):
-                        res['ok'] = False
-                        res['failures'].append(f'forbidden token in {f}: {ln.strip()[:80]}')
+    # forbidden tokens in every source file the property module (transitively) imports (comments stripped)
+    seen, todo = set(), [mod, 'WebPkg.Driver.Main']
+    while todo:
+        mname = todo.pop()
+        if mname in seen or not mname.startswith('WebPkg'):
+            continue
+        seen.add(mname)
+        fpath = os.path.join(LEAN, *mname.split('.')) + '.lean'
+        if not os.path.exists(fpath):
+            continue
+        src = strip_comments(open(fpath).read())
+        for ln in src.splitlines():
+            mm = re.match(r'\s*import\s+(\S+)', ln)
+            if mm:
+                todo.append(mm.group(1))
+            if FORBIDDEN.search(ln):
+                res['ok'] = False
+                res['failures'].append(f'forbidden token in {mname}: {ln.strip()[:80]}')
+    res['modules_scanned'] = len(seen)
     audit = os.path.join(LEAN, 'WebPkg', 'Audit', f'{pid}.lean')
     r = run(['lake', 'env', 'lean', audit], cwd=LEAN)
     if r.returncode != 0:
